@@ -74,7 +74,7 @@ def main():
     env.import_lib()
     from ceos_alos2.sar_image import caching
 
-    docs = json.loads(open(sys.argv[1]).read())
+    docs = json.loads(open(sys.argv[1], encoding="utf-8").read())
     out = []
     for text, rpc in docs:
         try:
